@@ -25,6 +25,11 @@ func (t Type) IsValid([]byte) error {
 		return util.ErrInvalid.Errorf("invalid char found in Type")
 	}
 
+	// NOTE "-v<digit>" separates Type and version in hint string
+	if regVersion.MatchString(string(t)) {
+		return util.ErrInvalid.Errorf("version separator found in Type")
+	}
+
 	return nil
 }
 
